@@ -5,7 +5,9 @@ PD = "List[ProposedDelta]"
 
 # abstract store: apply_fn(gid, batch) returns a mapping or raises; every call is recorded in ghost `calls`,
 # its outcome in ghost `oks`
-R.funtype("ApplyFn", params=["gid", "batch"], returns="Dict[str, int]", raises="Exception",
+# the store's result mapping is untrusted: counts may be missing or None (a successful batch whose result cannot be
+# read must still count as the batch having been applied)
+R.funtype("ApplyFn", params=["gid", "batch"], returns="Dict[str, Optional[int]]", raises="Exception",
           effects_before=["calls.append((gid, list(batch)))"], effects=["oks.append(True)"], effects_exc=["oks.append(False)"])
 R.optobj("OptApplyFn", "ApplyFn")
 R.objtype("Store", {"apply_deltas": "OptApplyFn"})
@@ -41,8 +43,8 @@ R.contract(
         ("no-fallback-when-batch-ok", "implies(" + HAS_FN + " and oks[0], len(calls) == 1)"),
         ("fallback-one-by-one-each-once",
          "implies(" + HAS_FN + " and not oks[0], len(calls) == 1 + len(t4.approved_deltas) and "
-         "forall(i, 0 <= i < len(t4.approved_deltas), calls[1 + i][0] == 'g:surface' and len(calls[1 + i][1]) == 1 and "
-         " calls[1 + i][1][0] == t4.approved_deltas[i]))"),
+         "forall(i, 1 <= i < len(calls), calls[i][0] == 'g:surface' and len(calls[i][1]) == 1 and "
+         " calls[i][1][0] == t4.approved_deltas[i - 1]))"),
         ("no-store-no-calls", "implies(not (" + HAS_FN + "), len(calls) == 0)"),
         ("version-bumped-once",
          "state['version_etag'] == ite(" + NUMERIC + ", str(int_value(some(old(state['version_etag']))) + 1), '1') "
@@ -57,10 +59,11 @@ R.contract(
         ("snapshot-carries-new-version", "implies(len(snaps) == 1, snaps[0][0] == state['version_etag'])"),
         ("approved-untouched", "seq_eq(t4.approved_deltas, old(t4.approved_deltas))"),
     ],
+    # (a false probe such as implies(len(calls) >= 2, len(t4.approved_deltas) == 0) must NOT be provable: selftest)
     raises="none",
     loops={
         0: {"inv": ["len(calls) == 1 + _i and len(oks) == 1 + _i",
-                    "forall(j, 0 <= j < _i, calls[1 + j][0] == 'g:surface' and len(calls[1 + j][1]) == 1 and calls[1 + j][1][0] == deltas[j])",
+                    "forall(j, 1 <= j < 1 + _i, calls[j][0] == 'g:surface' and len(calls[j][1]) == 1 and calls[j][1][0] == deltas[j - 1])",
                     "calls[0][0] == 'g:surface' and seq_eq(calls[0][1], deltas) and not oks[0]",
                     "len(inval) == 0 and len(snaps) == 0"]},
         1: {"inv": ["len(inval) == _i", "forall(j, 0 <= j < _i, inval[j] == _iter[j])", "len(snaps) == 0",
@@ -83,6 +86,7 @@ R.contract(
 R.dictrec("SnapCfg", {"snapshot_every_n_turns": "int"})
 R.contract(
     AP + "_should_snapshot", "C04",
+    unreachable_ok=['turn = 0'],   # `turn = 0` in `except Exception`: int() of an int turn id cannot raise
     types={"ctx": "ApplyCtx", "cfg": "SnapCfg"},
     ensures=[("cadence", "result == (ctx.turn_id % ite(cfg['snapshot_every_n_turns'] > 1, cfg['snapshot_every_n_turns'], 1) == 0)")],
     raises="none", callee=False,
